@@ -66,3 +66,21 @@ def i32ParseWithLimits (s : Str) (limit : Int) : Option Int :=
 def i32Parse (s : Str) : Option Int := i32ParseWithLimits s i32Max
 
 end Rosu
+
+namespace Rosu
+
+/-- decimal digits of a natural number, most significant first (`Display for u32/i32`), written
+so that it is provably inverse to `parseDigits`. `fuel` only has to exceed the number of digits. -/
+def decDigitsAux : Nat → Nat → Str → Str
+  | 0, _, acc => acc
+  | fuel + 1, n, acc =>
+    let acc' := Char.ofNat ('0'.toNat + n % 10) :: acc
+    if n < 10 then acc' else decDigitsAux fuel (n / 10) acc'
+
+def decDigits (n : Nat) : Str := decDigitsAux (n + 1) n []
+
+/-- `Display for i32`. -/
+def intDigits (n : Int) : Str :=
+  if n < 0 then '-' :: decDigits n.natAbs else decDigits n.natAbs
+
+end Rosu
